@@ -1904,14 +1904,22 @@ class SQLCompiler(Compiled):
         .. versionadded:: 2.0.0rc1
 
         """
+        # _process_parameters_for_postcompile() looks parameters up by their
+        # unescaped names and adds the expanded ones already escaped
         parameters = self.construct_params(
             params,
-            escape_names=escape_names,
+            escape_names=False,
             _no_postcompile=True,
         )
-        return self._process_parameters_for_postcompile(
+        expanded_state = self._process_parameters_for_postcompile(
             parameters,
         )
+        if escape_names and self.escaped_bind_names:
+            ebn = self.escaped_bind_names
+            escaped = {ebn.get(k, k): v for k, v in parameters.items()}
+            parameters.clear()
+            parameters.update(escaped)
+        return expanded_state
 
     def construct_params(
         self,
@@ -2178,7 +2186,7 @@ class SQLCompiler(Compiled):
                     replacement_expressions[escaped_name] = (
                         self.render_literal_bindparam(
                             parameter,
-                            render_literal_value=parameters.pop(escaped_name),
+                            render_literal_value=parameters.pop(name),
                         )
                     )
                 continue
